@@ -23,6 +23,7 @@ def run(ck, models, tier):
         if tm.arch != "aarch64":
             continue
         recs = patches.analyse(tm)
+        patches.missing_entry_writes(ck, "R15.2", tm, "aarch64")
         for key, m in tm.machines.items():
             for f in m.entered:
                 ck.analysed_fn(tm.target, f)
